@@ -306,6 +306,7 @@ func init() { vstat.Register(uCounts, runCounts) }
 
 func TestVerifC19Counters(t *testing.T) {
 	defer uCounts.Flush()
+	wedgeUnit = uCounts
 	rapid.Check(t, func(rt *rapid.T) {
 		var c countCase
 		burst := rapid.IntRange(0, 2).Draw(rt, "burst") == 0
@@ -406,6 +407,7 @@ func init() { vstat.Register(uPat, runPattern) }
 
 func TestVerifC06BrokerReject(t *testing.T) {
 	defer uPat.Flush()
+	wedgeUnit = uPat
 	rapid.Check(t, func(rt *rapid.T) {
 		c := patCase{Allowed: rapid.SampledFrom(patPool).Draw(rt, "allowed"), Presumed: rapid.SampledFrom(patPool).Draw(rt, "presumed")}
 		switch rapid.IntRange(0, 3).Draw(rt, "pkind") {
